@@ -14,6 +14,9 @@ OUTSIDE = ["more than 3 requests with a reopen flag after each", "OS durability:
 TPOOL = [POOL4[0], POOL4[1], POOL4[3]]
 
 
+STR_POOL = [["s:http|", "h:com|", "h:caf\u00e9|"], ["s:http|", "h:com|", "h:caf\u00e9|", "p:a|"], ["s:http|", "h:com|", "h:caf\u00e9|", "p:\u65e5|", "p:b|"]]
+
+
 def levels(tier):
     if tier == "quick":
         return [
@@ -22,6 +25,7 @@ def levels(tier):
             {"name": "rule-del", "n": 1, "prelude": [["rule", [1, 3, "path1"]], ["page", 1, False]], "alphabet": ["delwe", "page", "we"], "clear": True},
             {"name": "memory-clear", "n": 2, "alphabet": ["page", "we"], "clear": True, "backend": "memory", "tpool": [0, 1]},
             {"name": "special-clear", "n": 2, "alphabet": ["page"], "clear": True, "pool": [{"special": "LocalHost", "paths": 1}, {"hosts": 2}]},
+            {"name": "str-rules", "n": 2, "concrete": STR_POOL, "as_str": True, "alphabet": ["rule", "page"], "rule_patterns": ["path1"], "clear": False},
             {"name": "n1-wide", "n": 1, "alphabet": ["page", "links", "we", "rule", "batch", "addprefix"], "links_batch": 1, "batch_targets": 1,
              "rule_patterns": ["path1"], "clear": True},
         ]
@@ -43,7 +47,11 @@ def sizes_ok(E, t):
 
 def harness(E):
     P = E.params
-    pool = typed_pool(E, P["pool"] if P.get("pool") else [TPOOL[i] for i in P.get("tpool", [0, 1, 2])], L=1)
+    if P.get("concrete"):
+        from harness.common import concrete_pool
+        pool = concrete_pool(E, P["concrete"])
+    else:
+        pool = typed_pool(E, P["pool"] if P.get("pool") else [TPOOL[i] for i in P.get("tpool", [0, 1, 2])], L=1)
     memory = P.get("backend") == "memory"
     ref = Ref()
     ref.default_rule = "domain"
@@ -70,6 +78,9 @@ def harness(E):
             rules = h.current_rules()
             if rules:
                 E.reach("rule-resupplied")
+            if P.get("as_str"):
+                # the rules are re-supplied the way they were given: with str prefixes
+                rules = dict((bytes(getattr(k, "items", k)).decode("utf-8"), v) for k, v in rules.items())
             ok, a2 = E.call("reopen", lambda: E.Traph(folder=fa, default_webentity_creation_rule=RULES["domain"], webentity_creation_rules=rules))
             E.check(ok, "reopen:refused", "reopening a cleanly closed index was refused")
             tw.__dict__["a"] = a2
